@@ -61,6 +61,26 @@ Theorem C07_dep_target_exchange_total : forall fuel c s spni first payload timeo
   (length (sent s') <= length (sent s) + length (ans s) + 1)%nat /\ (length (ans s') <= length (ans s))%nat.
 Proof. exact dep_target_exchange_total. Qed.
 Print Assumptions C07_dep_target_exchange_total.
+(* the listen loop of the Target holds its deadline: against an ARBITRARILY LONG script of corrupted frames (each needing at
+   least eps > 0 time units to arrive) send_res_recv_req makes at most (time left / eps) + 1 calls of the frontend - a number
+   that does not depend on the length of the script - and returns no later than the deadline plus two clock ticks; if the
+   peer sends nothing but corrupted frames the result is TimeoutError.  (The time-out granted to each successive call is
+   what is left until the deadline; the seeded regression C07-c2 grants the full time-out again and is a different machine.) *)
+Theorem C07_listen_deadline : forall fuel c s frame dl eps,
+  0 < eps -> 0 <= ctick c -> Forall (slow eps) (ans s) -> (budget eps (dl - now s) < fuel)%nat ->
+  let r := fst (t_listen fuel c s frame dl) in
+  let s' := snd (t_listen fuel c s frame dl) in
+  good r /\ now s' <= Z.max (now s) dl + 2 * ctick c /\ (Sn s' <= Sn s + budget eps (dl - now s) + 1)%nat /\
+  (Forall (jam eps) (ans s) -> r = Err TimeoutError).
+Proof. exact t_listen_deadline. Qed.
+Print Assumptions C07_listen_deadline.
+Theorem C07_dep_target_jammed : forall fuel c s pni payload timeout eps,
+  cfg_ok c -> 0 < eps -> 0 <= ctick c -> payload <> [] -> Forall (jam eps) (ans s) -> (budget eps timeout < fuel)%nat ->
+  let r := fst (t_exchange fuel c s (Some pni) None payload timeout) in
+  let s' := snd (t_exchange fuel c s (Some pni) None payload timeout) in
+  r = Err TimeoutError /\ now s' <= now s + Z.max 0 timeout + 2 * ctick c /\ (Sn s' <= Sn s + budget eps timeout + 1)%nat.
+Proof. exact dep_target_jammed. Qed.
+Print Assumptions C07_dep_target_jammed.
 (* the code as it was (c07-3) / the seeded regression C07-2: a timeout extension PDU without value in reply to the ACK of a
    chained response raises IndexError out of Initiator.exchange; the repaired code answers with ProtocolError *)
 Theorem C07_orig_rtox_in_chaining :
@@ -429,6 +449,63 @@ Theorem C07_bridge_ho_client (nd : Z -> list Z -> ndef_out) (hs : list Z) (send_
   end.
 Proof. intros; apply bridge_ho_client; assumption. Qed.
 Print Assumptions C07_bridge_ho_client.
+
+(* the time-out granted to the frontend inside the retry loops of nfc.dep is the generated expression over the time left *)
+Theorem C07_bridge_t_listen f c s frame dl :
+  t_listen (S f) c s frame dl =
+  (let t := gen_t_listen_timeout (now s) dl in
+   let (r, s') := xchg c s frame t in
+   match r with
+   | Err TransmissionError => t_listen f c s' None dl
+   | Ok rsp => t_decode c rsp s'
+   | Err e => (Err e, s')
+   | Crash x => (Crash x, s')
+   | Hang => (Hang, s')
+   end).
+Proof. intros; apply bridge_t_listen; assumption. Qed.
+Print Assumptions C07_bridge_t_listen.
+
+Theorem C07_bridge_i_tmo s rwt dl :
+ tmo s rwt dl = gen_i_tmo rwt (now s) dl.
+Proof. intros; apply bridge_i_tmo; assumption. Qed.
+Print Assumptions C07_bridge_i_tmo.
+
+Theorem C07_bridge_i_loops f c s spni fmt pni data rwt dl n ch :
+  i_sdr_loop (S f) c s spni fmt pni data rwt dl =
+    (if gen_i_expired (gen_i_tmo rwt (now s) dl) then (Err TimeoutError, s) else
+     let (r, s1) := i_srr c s fmt pni data (gen_i_tmo rwt (now s) dl) in
+     match r with
+     | Ok res => (Ok res, s1)
+     | Err TimeoutError =>
+         let (a, s2) := i_attention 2 c s1 rwt dl in
+         match a with
+         | Ok _ => i_sdr_loop f c s2 spni fmt pni data rwt dl
+         | Err e => (Err e, s2) | Crash x => (Crash x, s2) | Hang => (Hang, s2)
+         end
+     | Err TransmissionError => i_retrans 2 c s1 spni rwt dl (fmt =? 1)
+     | Err e => (Err e, s1) | Crash x => (Crash x, s1) | Hang => (Hang, s1)
+     end) /\
+  i_attention (S n) c s rwt dl =
+    (if gen_i_expired (gen_i_tmo rwt (now s) dl) then (Err TimeoutError, s) else
+     let (r, s') := i_srr c s 8 0 [] (gen_i_tmo rwt (now s) dl) in
+     match r with
+     | Ok res => if rfmt res =? 9 then (Err ProtocolError, s')
+                 else if negb (rfmt res =? 8) then (Err ProtocolError, s') else (Ok tt, s')
+     | Err _ => i_attention n c s' rwt dl
+     | Crash x => (Crash x, s') | Hang => (Hang, s')
+     end) /\
+  i_retrans (S n) c s pni rwt dl ch =
+    (if gen_i_expired (gen_i_tmo rwt (now s) dl) then (Err TimeoutError, s) else
+     let (r, s') := i_srr c s 5 pni [] (gen_i_tmo rwt (now s) dl) in
+     match r with
+     | Ok res => if rfmt res =? 9 then (Err ProtocolError, s')
+                 else if (rfmt res =? 0) || (rfmt res =? 1) || (ch && (rfmt res =? 4)) then (Ok res, s')
+                 else (Err ProtocolError, s')
+     | Err _ => i_retrans n c s' pni rwt dl ch
+     | Crash x => (Crash x, s') | Hang => (Hang, s')
+     end).
+Proof. intros; apply bridge_i_loops; assumption. Qed.
+Print Assumptions C07_bridge_i_loops.
 
 (* --- the code as it was (each of these inputs was found by the check on the unrepaired tree) --- *)
 Theorem C07_orig_dep_empty_frame : decode_frame_orig Ini false [] = Crash IndexErr /\ decode_frame_orig Tgt true [240] = Crash IndexErr.
